@@ -179,8 +179,20 @@ func genFOBase(r *rand.Rand, sh foShape) *Scenario {
 }
 
 func init() {
-	gens["C01"] = func(r *rand.Rand, _ int, _ string) *Scenario {
-		return genFOBase(r, foShape{minClients: 2, maxClients: 8, maxKeys: 3, maxOps: 4, sleeps: true, skipRead: true})
+	gens["C01"] = func(r *rand.Rand, run int, _ string) *Scenario {
+		sc := genFOBase(r, foShape{minClients: 2, maxClients: 8, maxKeys: 3, maxOps: 4, sleeps: true, skipRead: true})
+
+		if run%20 == 19 {
+			// the Failover creates backend and failure cache itself (BackendConfig path of NewFailover*)
+			sc.FO.DefaultBackend = true
+			sc.FO.BackendCfg = BEConfig{CountSoftLimit: uint64(r.IntN(3)), EvictFraction: pick(r, 0, 0.5), Strategy: r.IntN(3)}
+
+			if sc.FO.Backend == "syncmap" || sc.FO.Backend == "shardedOfAny" {
+				sc.FO.Backend = "sharded"
+			}
+		}
+
+		return sc
 	}
 
 	shrinkers["fo"] = shrinkFO
@@ -278,6 +290,12 @@ func shrinkFO(sc *Scenario, yield func(c *Scenario) bool) {
 				func(o *FOOp) bool { ok := o.Cancel != ""; o.Cancel = ""; return ok },
 				func(o *FOOp) bool { ok := o.MutateKey != ""; o.MutateKey = ""; return ok },
 				func(o *FOOp) bool { ok := o.ReuseBuf; o.ReuseBuf = false; return ok },
+				func(o *FOOp) bool {
+					ok := o.UseShared
+					o.UseShared, o.HasCtxTTL, o.CtxTTLNs = false, false, 0
+
+					return ok
+				},
 				func(o *FOOp) bool { ok := len(o.BuildTTLs) > 0; o.BuildTTLs = nil; return ok },
 				func(o *FOOp) bool { ok := o.Key != 0; o.Key = 0; return ok },
 			}
